@@ -13,6 +13,7 @@ namespace Jap.ClassPath
     adaptation; nothing more is claimed here) -/
 def fits : PTy → Val → Prop
   | .scalar t, v => (coerceScalar t v).isSome = true
+  | .optScalar t, v => isNone v = true ∨ (coerceScalar t v).isSome = true
   | .cls _, _ => True
   | .optCls _, _ => True
 
@@ -55,6 +56,18 @@ theorem fits_of_adaptValue (rec : String → Option Val → Val → Except Err V
       cases h
       simp [fits, coerceScalar_idem t v y hy]
     · cases h
+  | optScalar t =>
+    unfold adaptValueWith at h
+    simp only at h
+    split at h
+    · rename_i hn
+      cases h
+      exact Or.inl hn
+    · split at h
+      · rename_i y' hy
+        cases h
+        exact Or.inr (by simp [coerceScalar_idem t v y hy])
+      · cases h
   | cls b => trivial
   | optCls b => trivial
 
@@ -118,8 +131,44 @@ theorem keepArgs_valid (rec : String → Option Val → Val → Except Err Val) 
       cases hc : coerceScalar t e.2 with
       | none => simp [hc, isOk] at hk
       | some y => simp [fits, hc]
+    | optScalar t =>
+      rw [hty] at hk
+      simp only [adaptValueWith] at hk
+      by_cases hn : isNone e.2 = true
+      · exact Or.inl hn
+      · simp only [hn, Bool.false_eq_true, if_false] at hk
+        cases hc : coerceScalar t e.2 with
+        | none => simp [hc, isOk] at hk
+        | some y => exact Or.inr (by simp [hc])
     | cls b => trivial
     | optCls b => trivial
+
+theorem coerceScalar_none_of_isNone (t : String) (v : Val) (ht : t ≠ "NoneType") (h : isNone v = true) :
+    coerceScalar t v = none := by
+  cases v with
+  | lit t' tok =>
+    have : t' = "NoneType" := by
+      unfold isNone at h
+      split at h
+      · rename_i heq; cases heq; rfl
+      · cases h
+    subst this
+    have h1 : ("NoneType" == t) = false := by
+      simp only [beq_eq_false_iff_ne, ne_eq]
+      exact fun e => ht e.symm
+    simp [coerceScalar, h1]
+  | spec _ _ _ => rfl
+  | bare _ => rfl
+  | nested _ _ => rfl
+
+/-- a `None` carried over from the previous class is discarded when the NEW class's parameter of that name is a
+    non-Optional scalar -/
+theorem keepArgs_drops_none (rec : String → Option Val → Val → Except Err Val) (params : List IParam) (pia : KV)
+    (e : String × Val) (p : IParam) (t : String) (hp : findParam params e.1 = some p) (hty : p.ty = .scalar t)
+    (ht : t ≠ "NoneType") (hn : isNone e.2 = true) : e ∉ keepArgs rec params pia := by
+  intro hmem
+  simp only [keepArgs, List.mem_filter, hp, hty, adaptValueWith, coerceScalar_none_of_isNone t e.2 ht hn, isOk] at hmem
+  exact absurd hmem.2 (by simp)
 
 /-- every key that is not a parameter of THIS class makes the merge fail -/
 theorem mergeArgs_unknown (rec : String → Option Val → Val → Except Err Val) (params : List IParam) :
